@@ -193,7 +193,7 @@ Proof.
       * exists []. reflexivity.
       * pose proof (missing_arr_len col) as Hm. destruct (missing_arr col); cbn; tauto.
     + unfold upcast_prop, upcast_arr, a. cbn [p_vals p_missing a_dt]. destruct Hok as [->|[->|[->|[->| ->]]]]; reflexivity.
-    + intros name Hname. unfold encodable. cbn [fst snd]. unfold create_props_metadata, encode_prop, upcast_prop, upcast_arr, a.
+    + intros name Hname. unfold encodable. cbn [fst snd]. unfold create_props_metadata, vlen_dtypes_uniform, cpm_core, encode_prop, upcast_prop, upcast_arr, a.
       cbn [p_vals p_missing a_dt].
       assert (Hf16 : dtype_eqb d DF16 = false) by (destruct Hok as [->|[->|[->|[->| ->]]]]; reflexivity).
       rewrite Hf16. cbn [p_vals a_dt]. rewrite (valid_scalar_dt d Hok).
